@@ -202,6 +202,38 @@ func eximsimExec(r *Run) {
 		r.Fail("C17", "overwritten", "non-empty-db", "start-up with prepared_db=true changed a database that already holds %d headers (init err %v)", len(h.m.Headers), err)
 	}
 	w.Open()
+	// ---------------- ... also when all it holds is the genesis header: a node started once without a prepared file
+	// and restarted with one before it had synced anything
+	if t.Chance(1, 3, "genesis-only-target") {
+		r.Step++
+		gw := &World{R: r, Dir: w.Dir, DBPath: filepath.Join(w.Dir, "genesis-only.db"), Sniffer: &panicSniffer{}}
+		gw.Log = w.Log
+		gw.Cfg = baseConfig(gw.DBPath)
+		if d0, e0 := database.Init(gw.Cfg, &gw.Log); e0 != nil {
+			Infra("genesis-only database: %v", e0)
+		} else {
+			_ = d0.Close()
+		}
+		g0 := gw.TableDigest("headers")
+		n0 := len(gw.Snapshot())
+		closeRO(gw)
+		r.Probe("import-onto-genesis-only-store")
+		// with the good file, or with one that must be refused (its block at the checkpoint height differs)
+		refusable := t.Chance(1, 2, "genesis-only-bad-file")
+		savedCk := config.Checkpoints
+		if refusable {
+			wrong := chainhash.Hash(h.uniqueHash("wrong-checkpoint"))
+			config.Checkpoints = []chaincfg.Checkpoint{{Height: int32(ck), Hash: &wrong}}
+		}
+		_, gerr := importInto("genesis-only.db", expFile)
+		config.Checkpoints = savedCk
+		if g1 := gw.TableDigest("headers"); g1 != g0 {
+			left := len(gw.Snapshot())
+			closeRO(gw)
+			r.Fail("C17", "overwritten", fmt.Sprintf("genesis-only-db,refusable-file=%v", refusable), "start-up with prepared_db=true changed a database that already held %d header (the genesis header): %d rows now (init err %v)", n0, left, gerr)
+		}
+		closeRO(gw)
+	}
 	// ---------------- corrupted files
 	nbad := t.Range(1, 3, "n-bad")
 	badKinds := map[string]bool{}
